@@ -299,7 +299,13 @@ def run_e2e(c, prot, rows, workdir):
                            "ScanNr": list(range(1, n + 1)), "ExpMass": [500.0 + i for i in range(n)],
                            "f0": [float(r["rank"]) for r in rows], "f1": [0.0] * n,
                            "Peptide": [r["str"] for r in rows], "Proteins": ["prot_r%d" % i for i in range(n)]})
-        ds = mk.make_dataset(df, wd / "in.pin")
+        extra = []
+        if c["idx"] % 4 == 1:
+            # one more roll-up level after the peptides: groups that lump neighbouring rows of the same label together (the
+            # protein level is estimated from the PEPTIDE table whatever other levels exist)
+            df.insert(7, "PeptideGroup", ["G%d%s" % (i // 2, "t" if r["tgt"] else "d") for i, r in enumerate(rows)])
+            extra = ["grp"]
+        ds = mk.make_dataset(df, wd / "in.pin", extra_levels=extra)
         out = wd / "out"
         out.mkdir()
         try:
